@@ -39,6 +39,7 @@ func checkC14(c *Check) {
 	c14KeyColumnUnique(c, "R8")
 	c14PasswordHashedWhole(c, "R9")
 	c14AccountMapInheritedEverywhere(c, "R10")
+	c14BcryptLengthChecked(c, "R11")
 	c14Providers(c)
 	c14Mapping(c)
 	c14Gate(c)
